@@ -6,6 +6,9 @@ from pathlib import Path
 
 REPO = Path("/repo")
 SRC = REPO / "src/wikitextprocessor/core.py"
+SRC_LUA = REPO / "src/wikitextprocessor/luaexec.py"
+LEAK_ATTRS = {"lua_invoke"}          # calls into the Lua runtime: callbacks may be aborted inside (pcall swallows)
+METHOD_ROOTS = {"expand": "expand"}  # self.expand(...) / ctx.expand(...) -> the translated Wtp.expand
 
 
 class Unsupported(Exception):
@@ -23,10 +26,13 @@ class Fn:
 
 
 class Translator:
-    def __init__(self, top: ast.FunctionDef):
+    def __init__(self, tops):
         self.fns: dict[str, Fn] = {}
         self.order: list[Fn] = []
-        self.collect(top)
+        self.leaks = 0
+        self.restores = 0
+        for top in tops:
+            self.collect(top)
 
     def collect(self, fn):
         f = Fn(fn.name, fn, len(self.order))
@@ -68,6 +74,20 @@ class Translator:
                     out.append("Pop")
                     return
                 raise Unsupported("expand_stack.%s at line %d" % (f.attr, e.lineno))
+            if isinstance(f, ast.Attribute) and f.attr in LEAK_ATTRS:
+                for a in e.args:
+                    self.expr_stmts(a, out)
+                self.leaks += 1
+                out.append("Leak")
+                return
+            if (isinstance(f, ast.Attribute) and f.attr in METHOD_ROOTS and isinstance(f.value, ast.Name)
+                    and f.value.id in ("self", "ctx") and METHOD_ROOTS[f.attr] in self.fns):
+                for a in e.args:
+                    self.expr_stmts(a, out)
+                for k in e.keywords:
+                    self.expr_stmts(k.value, out)
+                out.append("Call %d" % self.fns[METHOD_ROOTS[f.attr]].idx)
+                return
             self.expr_stmts(f, out)
             for a in e.args:
                 if is_stack(a):
@@ -88,6 +108,10 @@ class Translator:
                     for c in reversed(cbs):
                         body = "Cons (Call %d) (%s)" % (self.fns[c].idx, body)
                     out.append("Loop (%s)" % body)
+            return
+        if isinstance(e, ast.Compare) and len(e.ops) == 1 and isinstance(e.ops[0], (ast.In, ast.NotIn)) \
+                and is_stack(e.comparators[0]):
+            self.expr_stmts(e.left, out)      # read-only membership test
             return
         if is_stack(e):
             raise Unsupported("expand_stack used in an unrecognised way at line %d" % e.lineno)
@@ -137,10 +161,64 @@ class Translator:
         return b
 
     # ---- statements ------------------------------------------------------------
+    @staticmethod
+    def saved_len_name(s):
+        """`X = len(ctx.expand_stack)` -> "X" """
+        if (isinstance(s, ast.Assign) and len(s.targets) == 1 and isinstance(s.targets[0], ast.Name)
+                and isinstance(s.value, ast.Call) and isinstance(s.value.func, ast.Name) and s.value.func.id == "len"
+                and len(s.value.args) == 1 and is_stack(s.value.args[0])):
+            return s.targets[0].id
+        return None
+
+    @staticmethod
+    def is_restore_loop(finalbody, name):
+        """`while len(ctx.expand_stack) > X: ctx.expand_stack.pop()`"""
+        if len(finalbody) != 1 or not isinstance(finalbody[0], ast.While):
+            return False
+        w = finalbody[0]
+        t = w.test
+        ok_test = (isinstance(t, ast.Compare) and len(t.ops) == 1 and isinstance(t.ops[0], ast.Gt)
+                   and isinstance(t.left, ast.Call) and isinstance(t.left.func, ast.Name) and t.left.func.id == "len"
+                   and len(t.left.args) == 1 and is_stack(t.left.args[0])
+                   and isinstance(t.comparators[0], ast.Name) and t.comparators[0].id == name)
+        b = w.body
+        ok_body = (len(b) == 1 and isinstance(b[0], ast.Expr) and isinstance(b[0].value, ast.Call)
+                   and isinstance(b[0].value.func, ast.Attribute) and b[0].value.func.attr == "pop"
+                   and is_stack(b[0].value.func.value) and not b[0].value.args)
+        return ok_test and ok_body and not w.orelse
+
     def stmts(self, body):
         out = []
-        for s in body:
+        i = 0
+        while i < len(body):
+            s = body[i]
+            name = self.saved_len_name(s)
+            if name is not None:
+                # find the try statement that restores to this length
+                j = next((j for j in range(i + 1, len(body))
+                          if isinstance(body[j], ast.Try) and self.is_restore_loop(body[j].finalbody, name)), None)
+                if j is None:
+                    raise Unsupported("saved stack length %s is never restored by a try/finally (line %d)" % (name, s.lineno))
+                inner = []
+                for k in range(i + 1, j):
+                    self.stmt(body[k], inner)
+                t = body[j]
+                if t.orelse:
+                    raise Unsupported("try-else at line %d" % t.lineno)
+                tb = self.stmts(t.body)
+                if any(x.startswith("Pop") for x in tb):
+                    raise Unsupported("direct pop inside a restoring try body at line %d" % t.lineno)
+                alts = self.blk(tb)
+                for h in t.handlers:
+                    # the handler runs after an arbitrary prefix of the body: the prefix can only have leaked entries
+                    alts = "Cons (If2 (%s) (%s)) Nil" % (alts, self.blk(["Leak"] + self.stmts(h.body)))
+                inner.append("If2 (%s) Nil" % alts if False else alts_to_stmt(alts))
+                self.restores += 1
+                out.append("Restore (%s)" % self.blk(inner))
+                i = j + 1
+                continue
             self.stmt(s, out)
+            i += 1
         return out
 
     def stmt(self, s, out):
@@ -180,12 +258,31 @@ class Translator:
             else:
                 out.extend(pre)
                 out.append("Loop (%s)" % self.blk(self.stmts(s.body) + pre))
+        elif isinstance(s, ast.Try):
+            # only effect-free try statements are accepted here (the restoring idiom is handled in stmts())
+            parts = self.stmts(s.body) + [x for h in s.handlers for x in self.stmts(h.body)] + \
+                self.stmts(s.orelse) + self.stmts(s.finalbody)
+            if any(p for p in parts):
+                raise Unsupported("try statement with stack effects outside the restore idiom at line %d" % s.lineno)
         elif isinstance(s, ast.Delete):
             for n in ast.walk(s):
                 if is_stack(n):
                     raise Unsupported("del on expand_stack at line %d" % s.lineno)
         else:
             raise Unsupported("statement %s at line %d" % (type(s).__name__, s.lineno))
+
+
+def alts_to_stmt(blk_text):
+    """A block used as one statement: If2 blk blk is the same as running blk."""
+    return "If2 (%s) (%s)" % (blk_text, blk_text)
+
+
+def find_lua_sandbox():
+    tree = ast.parse(SRC_LUA.read_text())
+    for f in tree.body:
+        if isinstance(f, ast.FunctionDef) and f.name == "call_lua_sandbox":
+            return f
+    raise Unsupported("call_lua_sandbox not found")
 
 
 def find_expand():
@@ -206,14 +303,17 @@ From WTP Require Import Model.Skeleton.
 
 
 def generate() -> str:
-    tr = Translator(find_expand())
-    lines = [HEADER % SRC]
+    tr = Translator([find_expand(), find_lua_sandbox()])
+    lines = [HEADER % (str(SRC) + " and " + str(SRC_LUA))]
     names = []
     for f in tr.order:
         body = tr.blk(tr.stmts(f.node.body))
-        lines.append("(* %d: %s (core.py:%d) *)" % (f.idx, f.name, f.node.lineno))
+        lines.append("(* %d: %s (line %d) *)" % (f.idx, f.name, f.node.lineno))
         lines.append("Definition fn_%s : blk :=\n  %s.\n" % (f.name, body))
         names.append("fn_" + f.name)
+    if tr.leaks < 1 or tr.restores < 1:
+        raise Unsupported("call into the Lua runtime / its restoring try-finally not recognised (leaks=%d restores=%d)"
+                          % (tr.leaks, tr.restores))
     lines.append("Definition funs : list blk := [%s]." % "; ".join(names))
     lines.append("Definition translated_ok : bool := true.")
     return "\n".join(lines) + "\n"
@@ -221,7 +321,7 @@ def generate() -> str:
 
 def fallback(err: str) -> str:
     """Translator failure: emit a skeleton that cannot pass the check."""
-    return (HEADER % SRC) + "(* translator failed: %s *)\n" % err.replace("*)", "* )") + \
+    return (HEADER % (str(SRC) + " and " + str(SRC_LUA))) + "(* translator failed: %s *)\n" % err.replace("*)", "* )") + \
         "Definition funs : list blk := [Cons Push Nil].\nDefinition translated_ok : bool := false.\n"
 
 
